@@ -563,6 +563,37 @@ Definition pragma_regions_attached (kw : option string) :=
 Definition dataflow_analysis_attached :=
   with_ctx (run_op OAttD) (map dfaD).
 
+(** class membership as predicted for a case (so that the harness can cross-check its generators) *)
+Definition in_region_class (kw : option string) (t : tree) : bool :=
+  match matching_pairs (kw_filter kw (findp t)) with
+  | None => false
+  | Some pairs => region_class pairs t
+  end.
+
+(** ** properly nested contexts *)
+Inductive ctx := CP (nt : list kind) (pf : bool) | CR (kw : option string) | CD.
+
+Definition enter_op (c : ctx) : op :=
+  match c with CP nt pf => OAttP nt pf | CR kw => OAttR kw | CD => OAttD end.
+Definition leave_op (c : ctx) : op :=
+  match c with CP nt pf => ODetP nt pf | CR _ => ODetR | CD => ODetD end.
+(** [with c1: with c2: ... body]  =  enter c1, enter c2, ..., body, ..., leave c2, leave c1 *)
+Definition enter_ops (fl : list ctx) : list op := map enter_op fl.
+Definition leave_ops (fl : list ctx) : list op := rev (map leave_op fl).
+
+(** every context is entered in a state that satisfies the hypothesis of its round-trip theorem *)
+Fixpoint flow_in_class (fl : list ctx) (u : list tree) : bool :=
+  match fl with
+  | [] => true
+  | c :: r =>
+    match c with
+    | CP nt pf => forallb (no_preattached (nt_of nt) pf) u && flow_in_class r (map (attP (nt_of nt) pf) u)
+    | CR kw => forallb (in_region_class kw) u
+               && match attR_unit kw u with Ok u' => flow_in_class r u' | Err _ => false end
+    | CD => forallb dfa_class u && flow_in_class r (map dfaA u)
+    end
+  end.
+
 (** * correspondence comparators *)
 Definition res_eqb (r : res) (is_err : bool) (u : list tree) : bool :=
   match r with
@@ -583,9 +614,3 @@ Definition chk_pairs (kw : option string) (t : tree) (expected : option (list (Z
   | _, _ => false
   end.
 
-(** class membership as predicted for a case (so that the harness can cross-check its generators) *)
-Definition in_region_class (kw : option string) (t : tree) : bool :=
-  match matching_pairs (kw_filter kw (findp t)) with
-  | None => false
-  | Some pairs => region_class pairs t
-  end.
